@@ -25,9 +25,7 @@ use futures::{
 };
 use std::{collections::VecDeque, sync::Arc, time::SystemTime};
 
-use super::error::{InternalError, QuotaExceeded};
-
-const ERRMSG_HANDLE_DROPPED: &str = "Unable to complete async operation.";
+use super::error::QuotaExceeded;
 
 struct Session {
     awaiting_ack: VecDeque<(usize, oneshot::Sender<Result<RxPacket, MqttError>>)>,
@@ -118,20 +116,20 @@ where
                 if let Err(err) = Self::validate_packet_size(connection, msg.packet.as_ref()) {
                     msg.response_channel
                         .send(Err(err))
-                        .map_err(|_| InternalError::from(ERRMSG_HANDLE_DROPPED))?;
+                        .ok(); // The caller may have dropped its future meanwhile.
                     return Ok(());
                 }
 
                 tx.write(msg.packet.freeze().as_ref()).await?;
                 msg.response_channel
                     .send(Ok(()))
-                    .map_err(|_| InternalError::from(ERRMSG_HANDLE_DROPPED))?;
+                    .ok(); // The caller may have dropped its future meanwhile.
             }
             ContextMessage::AwaitAck(mut msg) => {
                 if let Err(err) = Self::validate_packet_size(connection, msg.packet.as_ref()) {
                     msg.response_channel
                         .send(Err(err))
-                        .map_err(|_| InternalError::from(ERRMSG_HANDLE_DROPPED))?;
+                        .ok(); // The caller may have dropped its future meanwhile.
                     return Ok(());
                 }
 
@@ -141,7 +139,7 @@ where
                     if connection.send_quota == 0 {
                         msg.response_channel
                             .send(Err(QuotaExceeded.into()))
-                            .map_err(|_| InternalError::from(ERRMSG_HANDLE_DROPPED))?;
+                            .ok(); // The caller may have dropped its future meanwhile.
                         return Ok(());
                     }
 
@@ -179,7 +177,7 @@ where
                 if let Err(err) = Self::validate_packet_size(connection, msg.packet.as_ref()) {
                     msg.response_channel
                         .send(Err(err))
-                        .map_err(|_| InternalError::from(ERRMSG_HANDLE_DROPPED))?;
+                        .ok(); // The caller may have dropped its future meanwhile.
                     return Ok(());
                 }
 
@@ -284,7 +282,7 @@ where
                 {
                     sender
                         .send(Ok(rx_packet))
-                        .map_err(|_| InternalError::from(ERRMSG_HANDLE_DROPPED))?;
+                        .ok(); // The caller may have dropped its future meanwhile.
                 }
             }
             RxPacket::Pubcomp(pubcomp) => {
@@ -304,7 +302,7 @@ where
                 {
                     sender
                         .send(Ok(rx_packet))
-                        .map_err(|_| InternalError::from(ERRMSG_HANDLE_DROPPED))?;
+                        .ok(); // The caller may have dropped its future meanwhile.
                 }
             }
             RxPacket::Pubrel(pubrel) => {
@@ -320,7 +318,7 @@ where
                 {
                     sender
                         .send(Ok(other))
-                        .map_err(|_| InternalError::from(ERRMSG_HANDLE_DROPPED))?;
+                        .ok(); // The caller may have dropped its future meanwhile.
                 }
             }
         }
